@@ -937,6 +937,15 @@ def run(ctx):
         # records are tolerated in which state: after the handshake, none)
         fl_actions = [('honest',)] + [('inject', k) for k in sorted(c02_live2.PLAIN_RECORDS)] + [('flip',), ('flip-then-honest',), ('swap',)]
         fl_jobs = [(fl, vic, a, 31) for fl in c02_live2.FLAVOURS for vic in 'cs' for a in fl_actions]
+        # the transport fails exactly on the fatal alert of every rejection path (bad MAC, unprotected record,
+        # overflow), several exception types: the connection must still be closed and nothing delivered
+        faults = ('timeout', 'epipe', 'reset', 'oserror', 'runtime', 'wouldblock')
+        f_actions = [('flip',), ('inject', 'appdata'), ('inject', 'ccs'), ('overflow',), ('inject', 'handshake')]
+        if quick:
+            fl_jobs += [(fl, vic, a, 37, f) for i, (fl, vic) in enumerate((f2, v2) for f2 in ('tls13', 'tls12', 'tls12-etm-cbc', 'tls10') for v2 in 'cs')
+                        for j, a in enumerate(f_actions) for k, f in enumerate(faults) if (i + j + k) % 3 == 0 or f == 'timeout']
+        else:
+            fl_jobs += [(fl, vic, a, 37, f) for fl in c02_live2.FLAVOURS for vic in 'cs' for a in f_actions for f in faults]
         fl_results = pool.map(c02_live2.flavour_case, fl_jobs, chunksize=4)
     finally:
         pool.close()
@@ -989,12 +998,13 @@ def run(ctx):
         if r.get('skip'):
             continue
         nfl += 1
-        fl, vic, a, seed = r['args']
-        ctx.count('flavour-sweep', 1, [(fl, vic, a, r.get('outcome'), r.get('desc'))])
+        fl, vic, a, seed = r['args'][:4]
+        flt = r['args'][4] if len(r['args']) > 4 else None
+        ctx.count('alert-send-fault' if flt else 'flavour-sweep', 1, [(fl, vic, a, flt, r.get('outcome'), r.get('desc'))])
         for suffix, text in r['viol']:
             found = True
-            ctx.violation('live:%s:flavour:%s:%s' % (suffix, fl, '/'.join(a)), text,
-                          {'flavour_args': [fl, vic, list(a), seed], 'result': {k: v for k, v in r.items() if k != 'args'},
+            ctx.violation('live:%s:flavour:%s:%s%s' % (suffix, fl, '/'.join(a), ':alert-send-' + flt if flt else ''), text,
+                          {'flavour_args': [fl, vic, list(a), seed] + ([flt] if flt else []), 'result': {k: v for k, v in r.items() if k != 'args'},
                            'how': 'harness/c02_live2.py flavour_case(args)'})
     ctx.log('live attacker: %d runs, %d KeyUpdate runs, %d handshake injections, %d flavour runs' % (nlive, len(ku_results), ninj, nfl))
     # key-change sites of /repo against the table the model (no_plaintext_survives_key_change) was written for
@@ -1060,7 +1070,7 @@ def replay(ctx, path):
         return 1 if out['viol'] else 0
     if 'flavour_args' in r:
         a = r['flavour_args']
-        out = c02_live2.flavour_case((a[0], a[1], tuple(a[2]), a[3]))
+        out = c02_live2.flavour_case((a[0], a[1], tuple(a[2]), a[3]) + tuple(a[4:]))
         print(out)
         return 1 if out['viol'] else 0
     if 'inject_args' in r:
